@@ -62,7 +62,7 @@ class ExprMixin:
         if v is not None:
             return [('val', st, v)]
         if n.id in ('len', 'isinstance', 'next', 'iter', 'bool', 'str', 'list', 'hasattr', 'getattr', 'min', 'max',
-                    'enumerate', 'range', 'any', 'all', 'map', 'filter', 'repr', 'hash', 'tuple', 'int', 'super',
+                    'enumerate', 'range', 'any', 'all', 'map', 'filter', 'repr', 'hash', 'tuple', 'int', 'super', 'sorted',
                     'slice', 'print'):
             return [('val', st, Val('builtin', None, name=n.id))]
         if n.id in ('StopIteration', 'IndexError', 'TypeError', 'EOFError', 'AssertionError', 'ValueError',
